@@ -57,6 +57,7 @@ VALID_KW = [
     {'emissions': {'apu_enabled': True, 'co2_enabled': False, 'pmvol_method': 'none'}},
     {'emissions': {'climb_descent_mode': 'trajectory', 'pmnvol_method': 'none'}},
     {'weather': {'use_weather': True}},
+    {'performance_model': '{SANDBOX}/data/perf_alt.toml'},            # absolute path
 ]
 INVALID_VALUE_KW = [
     {'emissions': {'nox_method': 'bogus'}},
@@ -72,6 +73,8 @@ INVALID_PATH_KW = [
     {'engine_file': 'missing_engines.xlsx'},
     {'weather': {'weather_data_dir': 'no_such_weather_dir'}},
     {'path': ['/nonexistent/aeic/path']},
+    {'performance_model': '/nonexistent/absolute/model.toml'},
+    {'engine_file': '{SANDBOX}/data/no_such_engines.xlsx'},
 ]
 READ_PATHS = [
     ['emissions', 'nox_method'], ['emissions', 'hc_method'], ['emissions', 'co_method'],
@@ -189,10 +192,19 @@ class ConfigSim:
                       op=op['op'])
         return True
 
+    def _subst(self, obj):
+        if isinstance(obj, dict):
+            return {k: self._subst(v) for k, v in obj.items()}
+        if isinstance(obj, list):
+            return [self._subst(v) for v in obj]
+        if isinstance(obj, str):
+            return obj.replace('{SANDBOX}', self.sandbox)
+        return obj
+
     def op_load(self, op):
         from AEIC.config import Config
 
-        kwargs = copy.deepcopy(op.get('kwargs', {}))
+        kwargs = self._subst(copy.deepcopy(op.get('kwargs', {})))
         file_arg = None
         file_data = {}
         if op.get('file'):
@@ -307,7 +319,7 @@ class ConfigSim:
         """Creating a configuration object directly (not through load) is loading one."""
         from AEIC.config import Config
 
-        data = deep_merge(_DEFAULTS, copy.deepcopy(op.get('kwargs', {})))
+        data = deep_merge(_DEFAULTS, self._subst(copy.deepcopy(op.get('kwargs', {}))))
         try:
             if op.get('how') == 'validate':
                 Config.model_validate(copy.deepcopy(data))
